@@ -596,6 +596,37 @@ def matrix_rich():
                ("set", (("key", "sub"),), "ch", dg("hunter22", n + 16, 8), "dotted"), ("set", (("key", "sub"), ("key", "deep")), "ch", dg("pw", n + 2, 9), "attr"),
                ("append", (), "items", [("set", (), "ch", dg("pw", 100, 10), "attr")]), ("append", (), "items", [("set", (), "ch", "hunter22", "attr")])]
         cases.append(rcase(fields, ops, "matrix-challenge", seed=700 + len(cases)))
+    # aliasing: untyped list / untyped dict / AnyField-item list fields (root, nested, list items) are assigned the VALUE READ from
+    # a typed list / typed dict field of the same configuration or of another one: to_tree() must render builtin lists / dicts
+    # (exact types at every depth), and the values round trip.  AnyField targets, tuples and nested mixtures put a typed
+    # container INSIDE an untyped value: outside the property's quantifier (tagged skip:non-plain-value), kept for the record.
+    istr = {"kind": "str", "p": {}}
+    iint = {"kind": "int", "p": {"min": None, "max": None}}
+    tl = lambda it: L("list", {"item": it})                   # noqa: E731
+    td = lambda it: L("dict", {"key": "str", "value": it})    # noqa: E731
+    ul, ud, la, an = (lambda: L("list", {"item": None})), (lambda: L("dict", {"key": None, "value": None})), \
+        (lambda: L("list", {"item": {"kind": "any", "p": {}}})), (lambda: L("any"))
+    inner = [("names", tl(istr)), ("ports", td(iint)), ("extra", ul()), ("misc", ud()), ("la", la()), ("any", an())]
+    fields = copy.deepcopy(inner) + [("nums", tl(iint)),
+                                     ("sub", {"t": "sub", "dyn": False, "fields": copy.deepcopy(inner) + [("deep", {"t": "ctype", "fields": [("values", ul()), ("m", ud())]})]}),
+                                     ("rows", {"t": "cfglist", "ctype": False, "required": False, "fields": [("db", {"t": "sub", "dyn": False, "fields": [("opts", ul()), ("m", ud())]}), ("l", la())]})]
+    base_ops = [("set", (), "names", ["a", "b b", ""], "attr"), ("set", (), "ports", {"x": 1, "k_2": 65535}, "attr"), ("set", (), "nums", [3, 2 ** 40], "attr"),
+                ("set", (("key", "sub"),), "names", ["n1"], "attr"), ("set", (("key", "sub"),), "ports", {"a": 0}, "attr")]
+    other = [("set", (), "names", ["from", "another"], "attr"), ("set", (), "ports", {"o": 7}, "attr")]
+    S, D = ("key", "sub"), ("key", "deep")
+    direct = [("copy", (), "extra", (), "names", None, None), ("copy", (), "la", (), "nums", None, None), ("copy", (), "misc", (), "ports", None, None),
+              ("copy", (S,), "extra", (), "names", None, None), ("copy", (S,), "misc", (S,), "ports", None, None), ("copy", (S,), "la", (S,), "names", None, None),
+              ("copy", (S, D), "values", (), "nums", None, None), ("copy", (S, D), "m", (), "ports", None, None),
+              ("append", (), "rows", [("copy", (("key", "db"),), "opts", (), "names", None, other), ("copy", (("key", "db"),), "m", (), "ports", None, other),
+                                      ("copy", (), "l", (), "names", None, other)])]
+    cases.append(rcase(fields, base_ops + direct, "matrix-alias", seed=800 + len(cases)))
+    cases.append(rcase(fields, base_ops + [("copy", (), "extra", (), "names", None, other), ("copy", (), "misc", (), "ports", None, other),
+                                           ("copy", (S,), "la", (), "names", None, other)], "matrix-alias", seed=800 + len(cases)))
+    for d in direct[:8]:
+        cases.append(rcase(fields, base_ops + [d], "matrix-alias", seed=800 + len(cases)))
+    for wrap in ("tuple", "list", "dict", "mix"):
+        cases.append(rcase(fields, base_ops + [("copy", (), "extra", (), "names", wrap, None)], "matrix-alias-nested", seed=800 + len(cases)))
+    cases.append(rcase(fields, base_ops + [("copy", (), "any", (), "names", None, None), ("copy", (S,), "any", (), "ports", None, None)], "matrix-alias-nested", seed=800 + len(cases)))
     # F41: required secret; the empty string is refused, the secret stays; empty optional secret comes back unset
     fields = [("req", L("secure", {"method": "xor"}, required=True)), ("opt", L("secure", {"method": "aes"})), ("dflt", L("secure", {"method": "xor"}, default="")),
               ("sl", L("list", {"item": {"kind": "secure", "p": {"method": "xor"}}}))]
@@ -1077,6 +1108,19 @@ def rich_op(b, root, op):
                 setattr(cfg, key, val)
         elif op[0] == "tree":
             setattr(cfg, op[2], copy.deepcopy(op[3]))
+        elif op[0] == "copy":
+            # ("copy", dst path, dst key, src path, src key, wrap, other): assign the VALUE READ from another field -- of this
+            # configuration, or (other = list of ops) of a second configuration of the same schema
+            src_root = root
+            if op[6] is not None:
+                src_root = b.schema()
+                for sub in op[6]:
+                    rich_op(b, src_root, sub)
+                b.keep = getattr(b, "keep", []) + [src_root]
+            v = getattr(nav(src_root, op[3]), op[4])
+            wrap = op[5]
+            v = (v,) if wrap == "tuple" else [v, 1] if wrap == "list" else {"a": v} if wrap == "dict" else [{"k": (v, [v])}] if wrap == "mix" else v
+            setattr(cfg, op[2], v)
         elif op[0] == "append":
             fld = cfg._get_field(op[2])
             item = fld.field()
@@ -1200,7 +1244,7 @@ def representability(root):
     import cincoconfig as cc
     st = {"xml": True, "bson": True, "plain": True, "nonfinite": False, "why": set(), "nonstr_key": False}
 
-    def generic(v, where):
+    def generic(v, where, top=False):
         if v is None or isinstance(v, bool):
             return
         if type(v) is int:
@@ -1219,6 +1263,11 @@ def representability(root):
             except UnicodeError:
                 st["plain"] = False
                 st["why"].add("%s: not a Unicode string" % where)
+            return
+        if isinstance(v, (list, dict)) and type(v) not in (list, dict) and not top:
+            # a typed container (ListProxy / DictProxy) INSIDE an untyped value: not plain data (outside the quantifier)
+            st["plain"] = False
+            st["why"].add("%s: %s inside an untyped value" % (where, type(v).__name__))
             return
         if isinstance(v, list):
             for x in v:
@@ -1261,7 +1310,9 @@ def representability(root):
                     generic({dk: None}, where)
                 by_field(f.value_field, x, where)
             return
-        generic(v, where)
+        # an untyped list / dict field renders list(value) / dict(value): the container class of the stored value is not part
+        # of the tree, its items are; an AnyField renders the stored value itself
+        generic(v, where, top=isinstance(f, (cc.ListField, cc.DictField)))
 
     def walk(cfg, path):
         for k, f, virt, meth in persistent_fields(cfg):
@@ -1383,7 +1434,11 @@ def cmp_val(f, va, vb, p, out, norms):
         for k, x in va.items():
             cmp_val(f.value_field, x, vb[k], "%s[%s]" % (p, k), out, norms)
         return
-    if isinstance(f, cc.ListField) and isinstance(f.field, cc.AnyField) and isinstance(va, list) and isinstance(vb, list) \
+    if isinstance(f, cc.DictField) and not f._use_proxy and isinstance(va, dict) and isinstance(vb, dict) and type(va) is not type(vb):
+        # same for an untyped dict field holding the DictProxy read from a typed one: the entries are compared exactly
+        norms.add("untyped-container-class")
+        va, vb = dict(va), dict(vb)
+    if isinstance(f, cc.ListField) and (f.field is None or isinstance(f.field, cc.AnyField)) and isinstance(va, list) and isinstance(vb, list) \
             and type(va) is not type(vb):
         # a list of AnyField items is a ListProxy when it comes from the field's default and a plain list after
         # an assignment or a load; no item is typed, so the container class is not part of the value (ruled outside C02):
